@@ -990,7 +990,9 @@ def run(run):
         cases += exhaustive_compositions(run.rng, 4)
     while len(cases) < ncases:
         cases.append(gen_case(run.rng, run.thorough))
-    with multiprocessing.get_context("fork").Pool(common.NCPU) as pool:
+    import dclab  # noqa: F401 (imported before the fork)
+    import h5py  # noqa: F401
+    with multiprocessing.get_context("fork").Pool(min(8, common.NCPU)) as pool:
         results = pool.map(_work, [(c, run.scratch) for c in cases],
                            chunksize=4)
     for c, (flat, fails, info) in zip(cases, results):
